@@ -12,7 +12,7 @@ run_demo() { # prints exit code
     pkg=$(grep -m1 '^package ' "$MD/demo_test.go" | awk '{print $2}')
     case "$pkg" in
       boc|boc_test) d=boc;; tlb|tlb_test) d=tlb;; wallet|wallet_test) d=wallet;; liteclient|liteclient_test) d=liteclient;;
-      pool|pool_test) d=liteapi/pool;; parser|parser_test) if grep -q "tlb/parser/" "$MD/meta.json" 2>/dev/null; then d=tlb/parser; else d=tl/parser; fi;; tl|tl_test) d=tl;; ton|ton_test) d=ton;; tonconnect|tonconnect_test) d=tonconnect;;
+      pool|pool_test) d=liteapi/pool;; parser|parser_test) if grep -q "tlb/parser/" "$MD/meta.json" 2>/dev/null || grep -q "^+++ b/tlb/parser/" "$MD/patch.diff"; then d=tlb/parser; else d=tl/parser; fi;; liteapi|liteapi_test) d=liteapi;; abi|abi_test) d=abi;; tongo|tongo_test) d=.;; tl|tl_test) d=tl;; ton|ton_test) d=ton;; tonconnect|tonconnect_test) d=tonconnect;;
       *) echo "unknown package $pkg" >&2; return 99;;
     esac
     cp "$MD/demo_test.go" "$WT/$d/zz_seed_demo_test.go"
@@ -23,7 +23,7 @@ run_demo() { # prints exit code
   elif [ -d "$MD/demo" ]; then
     rm -rf /tmp/sd-demo-$$; cp -r "$MD/demo" /tmp/sd-demo-$$
     # point any replace directive at the scratch worktree
-    find /tmp/sd-demo-$$ -name go.mod -exec sed -i "s#=> /tmp/seed-$ID\b#=> $WT#; s#=> /tmp/seed-$ID\$#=> $WT#" {} \;
+    find /tmp/sd-demo-$$ -name go.mod -exec sed -i -E "s#=> /tmp/seed[0-9]*-$ID(-out)?\b.*#=> $WT#" {} \;
     if [ -x /tmp/sd-demo-$$/run.sh ]; then (cd /tmp/sd-demo-$$ && TONGO="$WT" ./run.sh "$WT" >/tmp/sd-out-$$.txt 2>&1); rc=$?
     else (cd /tmp/sd-demo-$$ && cp "$WT/go.sum" . 2>/dev/null; go run . "$WT" >/tmp/sd-out-$$.txt 2>&1); rc=$?; fi
     rm -rf /tmp/sd-demo-$$
